@@ -8,27 +8,47 @@ From NsyncGen Require Import Consts Sites.
 From NsyncModel Require Import HbModel.
 From NsyncModel Require OnceModel CounterModel.
 From NsyncModel Require Import HbOnce HbCounter.
-From NsyncProof Require CounterProof HbOnceProof HbCounterProof.
-From Coq Require Import List ZArith String.
+From NsyncProof Require OnceProof CounterProof HbOnceProof HbCounterProof.
+From Coq Require Import List ZArith String Lia.
 Import ListNotations.
 Local Open Scope Z_scope.
 
 (* ------------------------------------------------------------------ *)
 (* nsync_run_once / _arg / _spin / _arg_spin                           *)
 (* ------------------------------------------------------------------ *)
-(* For ANY number of threads, programs (calls on any once words, blocking or spinning variants) and schedules:
-   if step i is the one at which the once-function of word o has finished (the model's ghost [completed] flips: the
-   winner's ATM_STORE_REL (once, 2)) and step j is a step at which a call on o returns (the ghost [returned] of the
-   stepping thread grows: fast-path load in nsync_run_once*, first load in nsync_run_once_impl, or the wait loop),
-   then i < j, and the winner's view just before the store (hence the whole run of the once-function) and its view
-   after the store are contained in the returning thread's view -- computed from the memory orders the source requests
-   at each site, nothing else. *)
-Theorem C03_once_handoff : forall progs sched i j oi oj o,
-  let tr := run_hb_once (OnceModel.init progs) ohb0 sched in
+(* For ANY environment e of OnceModel (map from once objects to once_sync slots, termination of the once-functions,
+   obtainability of the internal locks), number of threads, programs (calls on any once words, blocking or spinning
+   variants) and schedules:
+   if step i is the one at which the word of object o takes the value 2 (the winner's ATM_STORE_REL (once, 2)) and step j
+   is a step at which a call on o returns (the ghost [returned] of the stepping thread grows: fast-path load in
+   nsync_run_once*, first load in nsync_run_once_impl, the wait loop of a spinning call, or the final nsync_mu_unlock of a
+   blocking call, whose acquire load of 2 is an earlier step of the same thread), then i < j, and the winner's view just
+   before the store and its view after the store are contained in the returning thread's view -- computed from the memory
+   orders the source requests at each site, nothing else (the model's abstract steps on once_mu / once_cv are given no
+   ordering effect). *)
+Theorem C03_once_handoff : forall e progs sched i j oi oj o,
+  let tr := run_hb_once (OnceModel.init e progs) ohb0 sched in
   nth_error tr i = Some oi -> nth_error tr j = Some oj ->
   once_publishes o oi -> once_returns o oj ->
   (i < j)%nat /\ vle (ob_pre oi) (ob_view oj) /\ vle (ob_view oi) (ob_view oj).
 Proof. exact HbOnceProof.once_handoff. Qed.
+
+(* the same from the step at which the once-function RETURNS to nsync_run_once_impl (OnceModel's f-end step: the ghost
+   [completed] flips; the winner makes it before its store of 2, Props/Properties_C07.v C07_order): that step precedes
+   every return of a call on o and the winner's view at it -- hence the whole run of the once-function -- is contained in
+   the returning thread's view *)
+Theorem C03_once_fn_handoff : forall e progs sched i j oi oj o,
+  let tr := run_hb_once (OnceModel.init e progs) ohb0 sched in
+  nth_error tr i = Some oi -> nth_error tr j = Some oj ->
+  once_fn_ends o oi -> once_returns o oj ->
+  (i < j)%nat /\ vle (ob_pre oi) (ob_view oj) /\ vle (ob_view oi) (ob_view oj).
+Proof. exact HbOnceProof.once_fn_handoff. Qed.
+
+(* program order: what a thread had in its view at an earlier step of its own it still has at a later one *)
+Theorem C03_once_program_order : forall sched w h i j oi oj,
+  nth_error (run_hb_once w h sched) i = Some oi -> nth_error (run_hb_once w h sched) j = Some oj ->
+  (i <= j)%nat -> ob_t oi = ob_t oj -> vle (ob_view oi) (ob_view oj).
+Proof. exact HbOnceProof.program_order. Qed.
 
 (* what the proof rests on, evaluated on the regenerated inventory: the store of 2 asks for release; the entry load of
    every one of the four public functions (site 1 = the weakest of the four), impl#1 and impl#5 ask for acquire *)
@@ -37,27 +57,32 @@ Theorem C03_once_orders :
   Forall (fun s => has_acq (once_order_of Kload s) = true) [1; 11; 15].
 Proof. exact HbOnceProof.once_orders. Qed.
 
-(* the hypotheses are met: three callers on one word; thread 0 wins, thread 1 loses the CAS and returns from the wait
-   loop (step 10), thread 2 arrives late and returns on the fast path (step 11); the store is step 8 *)
+(* the hypotheses are met: three callers on one word; thread 0 (blocking) wins, runs the function (f-end is step 11),
+   stores 2 (step 14) and returns at its final unlock (step 16); thread 1 (spinning) loses the CAS and returns from the
+   wait loop (step 18); thread 2 arrives late and returns on the fast path (step 19) *)
 Example C03_once_handoff_example :
-  let tr := run_hb_once (OnceModel.init [[(0%nat, false)]; [(0%nat, true)]; [(0%nat, false)]]) ohb0
-                        [0; 1; 0; 1; 0; 1; 1; 1; 0; 0; 1; 2]%nat in
-  exists oi oj oj',
-    nth_error tr 8 = Some oi /\ nth_error tr 10 = Some oj /\ nth_error tr 11 = Some oj' /\
-    once_publishes 0 oi /\ once_returns 0 oj /\ once_returns 0 oj' /\
-    ob_t oi = 0%nat /\ ob_t oj = 1%nat /\ ob_t oj' = 2%nat.
+  let tr := run_hb_once (OnceModel.init OnceProof.env_mod64 [[(0%nat, false)]; [(0%nat, true)]; [(0%nat, false)]]) ohb0
+                        [0; 1; 0; 1; 0; 0; 1; 1; 1; 0; 0; 0; 0; 0; 0; 0; 0; 1; 1; 2]%nat in
+  exists oe oi oj0 oj oj',
+    nth_error tr 11 = Some oe /\ nth_error tr 14 = Some oi /\ nth_error tr 16 = Some oj0 /\
+    nth_error tr 18 = Some oj /\ nth_error tr 19 = Some oj' /\
+    once_fn_ends 0 oe /\ once_publishes 0 oi /\ once_returns 0 oj0 /\ once_returns 0 oj /\ once_returns 0 oj' /\
+    ob_t oe = 0%nat /\ ob_t oi = 0%nat /\ ob_t oj0 = 0%nat /\ ob_t oj = 1%nat /\ ob_t oj' = 2%nat.
 Proof.
   intros tr.
-  assert (H : match nth_error tr 8, nth_error tr 10, nth_error tr 11 with
-              | Some oi, Some oj, Some oj' =>
-                  once_publishes 0 oi /\ once_returns 0 oj /\ once_returns 0 oj' /\
-                  ob_t oi = 0%nat /\ ob_t oj = 1%nat /\ ob_t oj' = 2%nat
-              | _, _, _ => False
-              end) by (vm_compute; repeat split; reflexivity).
-  destruct (nth_error tr 8) as [oi|]; [|contradiction].
-  destruct (nth_error tr 10) as [oj|]; [|contradiction].
-  destruct (nth_error tr 11) as [oj'|]; [|contradiction].
-  exists oi, oj, oj'. repeat split; try reflexivity; apply H.
+  assert (H : HbOnceProof.opt_holds (nth_error tr 11) (fun oe => HbOnceProof.opt_holds (nth_error tr 14) (fun oi =>
+              HbOnceProof.opt_holds (nth_error tr 16) (fun oj0 => HbOnceProof.opt_holds (nth_error tr 18) (fun oj =>
+              HbOnceProof.opt_holds (nth_error tr 19) (fun oj' =>
+                once_fn_ends 0 oe /\ once_publishes 0 oi /\ once_returns 0 oj0 /\ once_returns 0 oj /\ once_returns 0 oj' /\
+                ob_t oe = 0%nat /\ ob_t oi = 0%nat /\ ob_t oj0 = 0%nat /\ ob_t oj = 1%nat /\ ob_t oj' = 2%nat))))))
+    by (vm_compute; repeat split; try reflexivity; discriminate).
+  apply HbOnceProof.opt_holds_ex in H. destruct H as (oe & E1 & H).
+  apply HbOnceProof.opt_holds_ex in H. destruct H as (oi & E2 & H).
+  apply HbOnceProof.opt_holds_ex in H. destruct H as (oj0 & E3 & H).
+  apply HbOnceProof.opt_holds_ex in H. destruct H as (oj & E4 & H).
+  apply HbOnceProof.opt_holds_ex in H. destruct H as (oj' & E5 & H).
+  exists oe, oi, oj0, oj, oj'.
+  split; [exact E1|]. split; [exact E2|]. split; [exact E3|]. split; [exact E4|]. split; [exact E5|]. exact H.
 Qed.
 
 (* ------------------------------------------------------------------ *)
@@ -86,14 +111,35 @@ Theorem C03_counter_handoff_any : forall v0 c0 progs sched i j oi oj y x,
   vle (co_view oi) (co_view oj).
 Proof. exact HbCounterProof.counter_handoff_any. Qed.
 
-(* a signal before the woken waiter's return: the adder's view at nsync_mu_semaphore_v on thread u's waiter is
-   contained in thread u's view at every later successful nsync_mu_semaphore_p_with_deadline *)
+(* THE WAKE-UP EDGE.  For ANY initial value, number of threads, programs and schedules: if step i is nsync_counter_add's
+   ATM_STORE_REL (&nw->waiting, 0) (counter.c:76, site add#5) on the waiter record of thread u, popped from c->waiters,
+   and step j is thread u's FIRST ATM_LOAD_ACQ (&nw->waiting) in counter_dequeue (counter.c:136, site dequeue#2) after
+   it, then that load reads the 0 the adder stored and the adder's view at the store is contained in the waiter's view
+   after the load.  Credited to the release order of add#5 and the acquire order of dequeue#2 ONLY (both looked up in
+   the regenerated inventory): not to counter_mu, not to the interleaving, not to the sleeping primitive -- the
+   semaphore locations of the instrumentation play no part in the proof, which rests on the PROVED invariant that
+   c->waiters has no duplicates and that its members are threads inside nsync_wait_n whose flag is set, so that between
+   i and j nobody stores to that flag (the other stores to a `waiting' flag, all relaxed: wait.c:54, enqueue#2/#3,
+   dequeue#3, are by the owner of the record, which is past / before them; other adders pop only records on the list). *)
 Theorem C03_counter_wake_handoff : forall v0 c0 progs sched i j oi oj u,
+  let tr := run_hb_counter (CounterModel.init v0 c0 progs) chb0 sched in
+  nth_error tr i = Some oi -> nth_error tr j = Some oj -> (i < j)%nat ->
+  counter_wakes u oi -> counter_dequeue_load u oj ->
+  (forall k ok, (i < k < j)%nat -> nth_error tr k = Some ok -> ~ counter_dequeue_load u ok) ->
+  co_ev oj = CounterModel.EvLoad 602 0 /\ vle (co_view oi) (co_view oj).
+Proof. exact HbCounterProof.counter_wake_handoff. Qed.
+
+(* SECONDARY -- futex flavour only: credits the compare-and-swap orders of platform/linux/src/nsync_semaphore_futex.c;
+   NOT part of the C03 claim, which credits nothing to the sleeping primitive; other semaphore flavours (mutex/condvar,
+   sem_t) have no such sites.
+   The adder's view at nsync_mu_semaphore_v on thread u's waiter is contained in thread u's view at every later
+   successful nsync_mu_semaphore_p_with_deadline. *)
+Theorem C03_counter_sem_handoff : forall v0 c0 progs sched i j oi oj u,
   let tr := run_hb_counter (CounterModel.init v0 c0 progs) chb0 sched in
   nth_error tr i = Some oi -> nth_error tr j = Some oj -> (i < j)%nat ->
   counter_posts u oi -> counter_woken u oj ->
   vle (co_view oi) (co_view oj).
-Proof. exact HbCounterProof.counter_wake_handoff. Qed.
+Proof. exact HbCounterProof.counter_sem_handoff. Qed.
 
 (* program order: what a thread had in its view at an earlier step of its own (e.g. the first step of the
    nsync_counter_add call) it still has at a later one (e.g. the CAS); chains with the theorems above *)
@@ -111,42 +157,59 @@ Theorem C03_counter_orders :
   (* add#1, value#1, wait#1, ready_time#2, dequeue#1: acquire loads of c->value *)
   Forall (fun s => has_acq (corder Kload s) = true /\ forall u, cloc s u = LValue) [101; 201; 301; 402; 601] /\
   (* add#5, ready_time#1, enqueue#2, enqueue#3, dequeue#3: the plain stores of the modelled functions, none to c->value *)
-  Forall (fun s => forall u, cloc s u <> LValue) [105; 401; 502; 503; 603].
+  Forall (fun s => forall u, cloc s u <> LValue) [105; 401; 502; 503; 603] /\
+  (* the wake-up edge: add#5 is a RELEASE store to nw->waiting of the popped record, dequeue#2 an ACQUIRE load of the
+     caller's own nw->waiting *)
+  has_rel (corder Kstore 105) = true /\ (forall u, cloc 105 u = LWaiting u) /\
+  has_acq (corder Kload 602) = true /\ (forall u, cloc 602 u = LWaiting u) /\
+  (* the other stores to a `waiting' flag (enqueue#2, enqueue#3, dequeue#3; all relaxed, the proof does not use their
+     order) are to the record of the thread the event names; ready_time#1 is to c->waited *)
+  Forall (fun s => forall u, cloc s u = LWaiting u) [502; 503; 603] /\
+  (forall u, cloc 401 u = LWaited).
 Proof. exact HbCounterProof.counter_orders. Qed.
 
-(* the checked premise of the V -> P edge: in the futex semaphore every compare-and-swap of nsync_mu_semaphore_v asks
-   for release, every compare-and-swap of nsync_mu_semaphore_p and nsync_mu_semaphore_p_with_deadline for acquire
-   (sites_nsync_semaphore_futex_c); EvV / EvP are instrumented with exactly these orders *)
+(* FUTEX FLAVOUR ONLY (secondary; premise of C03_counter_sem_handoff, not of the C03 claim): in the futex semaphore
+   every compare-and-swap of nsync_mu_semaphore_v asks for release, every compare-and-swap of nsync_mu_semaphore_p and
+   nsync_mu_semaphore_p_with_deadline for acquire (sites_nsync_semaphore_futex_c); EvV / EvP are instrumented with
+   exactly these orders.  The mutex/condvar and sem_t flavours of the semaphore have no such sites. *)
 Theorem C03_sem_orders : has_rel sem_v_order = true /\ has_acq sem_p_order = true.
 Proof. exact HbCounterProof.sem_orders. Qed.
 
 (* the hypotheses are met on the run of CounterProof.example_run (initial value 1; two sleepers, one timing out; the
-   add of -1 zeroes the counter at step 22; a late wait returns 0 at step 24 on its first load; the adder returns 0 at
-   step 26, which is also its V on thread 0's semaphore; nsync_counter_value returns 0 at step 27; thread 0's P is
-   step 28 and its nsync_counter_wait returns 0 at step 32 after dequeueing itself) *)
+   add of -1 zeroes the counter at step 22; a late wait returns 0 at step 24 on its first load; the adder's
+   ATM_STORE_REL (&nw->waiting, 0) on thread 0's record is step 25; the adder returns 0 at step 26, which is also its V
+   on thread 0's semaphore; nsync_counter_value returns 0 at step 27; thread 0's P is step 28, and its
+   nsync_counter_wait returns 0 at step 32, which is its ATM_LOAD_ACQ (&nw->waiting) in counter_dequeue -- its first
+   one after step 25) *)
 Example C03_counter_handoff_example :
   let tr := run_hb_counter (CounterModel.init 1 0 CounterProof.ex_progs) chb0 CounterProof.ex_sched in
-  exists oi o24 o26 o27 o28 o32,
-    nth_error tr 22 = Some oi /\ nth_error tr 24 = Some o24 /\ nth_error tr 26 = Some o26 /\
+  exists oi o24 o25 o26 o27 o28 o32,
+    nth_error tr 22 = Some oi /\ nth_error tr 24 = Some o24 /\ nth_error tr 25 = Some o25 /\
+    nth_error tr 26 = Some o26 /\
     nth_error tr 27 = Some o27 /\ nth_error tr 28 = Some o28 /\ nth_error tr 32 = Some o32 /\
     counter_zeroes oi /\ actor (co_lab oi) = Some 1%nat /\
     counter_wait_returns 0 o24 /\ actor (co_lab o24) = Some 3%nat /\
+    counter_wakes 0 o25 /\ actor (co_lab o25) = Some 1%nat /\
     counter_returns 0 o26 /\ counter_posts 0 o26 /\
     counter_returns 0 o27 /\
     counter_woken 0 o28 /\
-    counter_wait_returns 0 o32 /\ actor (co_lab o32) = Some 0%nat.
+    counter_wait_returns 0 o32 /\ actor (co_lab o32) = Some 0%nat /\
+    counter_dequeue_load 0 o32 /\
+    (forall k ok, (25 < k < 32)%nat -> nth_error tr k = Some ok -> ~ counter_dequeue_load 0 ok).
 Proof.
   intros tr.
-  assert (H : match nth_error tr 22, nth_error tr 24, nth_error tr 26, nth_error tr 27, nth_error tr 28,
-                    nth_error tr 32 with
-              | Some oi, Some o24, Some o26, Some o27, Some o28, Some o32 =>
+  assert (H : match nth_error tr 22, nth_error tr 24, nth_error tr 25, nth_error tr 26, nth_error tr 27,
+                    nth_error tr 28, nth_error tr 32 with
+              | Some oi, Some o24, Some o25, Some o26, Some o27, Some o28, Some o32 =>
                   counter_zeroes oi /\ actor (co_lab oi) = Some 1%nat /\
                   counter_wait_returns 0 o24 /\ actor (co_lab o24) = Some 3%nat /\
+                  counter_wakes 0 o25 /\ actor (co_lab o25) = Some 1%nat /\
                   counter_returns 0 o26 /\ counter_posts 0 o26 /\
                   counter_returns 0 o27 /\
                   counter_woken 0 o28 /\
-                  counter_wait_returns 0 o32 /\ actor (co_lab o32) = Some 0%nat
-              | _, _, _, _, _, _ => False
+                  counter_wait_returns 0 o32 /\ actor (co_lab o32) = Some 0%nat /\
+                  counter_dequeue_load 0 o32
+              | _, _, _, _, _, _, _ => False
               end).
   { vm_compute.
     repeat match goal with
@@ -154,13 +217,58 @@ Proof.
            | |- exists _, _ => eexists
            | |- _ = _ => reflexivity
            end. }
+  assert (N : forall k ok, (25 < k < 32)%nat -> nth_error tr k = Some ok -> ~ counter_dequeue_load 0 ok).
+  { intros k ok Hk Hn (x & E & _).
+    assert (K : (k = 26 \/ k = 27 \/ k = 28 \/ k = 29 \/ k = 30 \/ k = 31)%nat) by lia.
+    apply (map_nth_error co_ev) in Hn. rewrite E in Hn.
+    destruct K as [-> | [-> | [-> | [-> | [-> | ->]]]]]; vm_compute in Hn; discriminate Hn. }
   destruct (nth_error tr 22) as [oi|]; [|contradiction].
   destruct (nth_error tr 24) as [o24|]; [|contradiction].
+  destruct (nth_error tr 25) as [o25|]; [|contradiction].
   destruct (nth_error tr 26) as [o26|]; [|contradiction].
   destruct (nth_error tr 27) as [o27|]; [|contradiction].
   destruct (nth_error tr 28) as [o28|]; [|contradiction].
   destruct (nth_error tr 32) as [o32|]; [|contradiction].
-  exists oi, o24, o26, o27, o28, o32. do 6 (split; [reflexivity|]). exact H.
+  exists oi, o24, o25, o26, o27, o28, o32. do 7 (split; [reflexivity|]).
+  repeat (split; [apply H|]). exact N.
+Qed.
+
+(* the wake-up edge WITHOUT the semaphore (so that nothing but nw->waiting can carry it): the waiter (thread 0) is
+   between its counter_ready_time store and load when the adder (thread 1) zeroes the counter (step 6) and clears the
+   flag (step 7, adder's clock 3); the waiter then sees 0 (step 8), leaves the loop WITHOUT P (no P anywhere in the run)
+   and, once the adder has left (step 9), dequeues: its load of nw->waiting is step 11 and its view then has the
+   adder's clock 3 -- the acquire loads of c->value (steps 8, 10) only gave it the adder's clock at the CAS, 2 *)
+Example C03_counter_wake_example :
+  let tr := run_hb_counter (CounterModel.init 1 0 [[CounterModel.Wait None]; [CounterModel.Add (-1)]]) chb0
+              (map CounterModel.LStep [0; 0; 0; 0; 0; 1; 1; 1; 0; 1; 0; 0]%nat) in
+  exists o7 o10 o11,
+    nth_error tr 7 = Some o7 /\ nth_error tr 10 = Some o10 /\ nth_error tr 11 = Some o11 /\
+    counter_wakes 0 o7 /\ actor (co_lab o7) = Some 1%nat /\ co_view o7 1%nat = 3 /\
+    actor (co_lab o10) = Some 0%nat /\ co_view o10 1%nat = 2 /\
+    counter_dequeue_load 0 o11 /\ co_view o11 1%nat = 3 /\ counter_wait_returns 0 o11 /\
+    Forall (fun e => e <> CounterModel.EvP) (map co_ev tr).
+Proof.
+  intros tr.
+  assert (H : match nth_error tr 7, nth_error tr 10, nth_error tr 11 with
+              | Some o7, Some o10, Some o11 =>
+                  counter_wakes 0 o7 /\ actor (co_lab o7) = Some 1%nat /\ co_view o7 1%nat = 3 /\
+                  actor (co_lab o10) = Some 0%nat /\ co_view o10 1%nat = 2 /\
+                  counter_dequeue_load 0 o11 /\ co_view o11 1%nat = 3 /\ counter_wait_returns 0 o11
+              | _, _, _ => False
+              end).
+  { vm_compute.
+    repeat match goal with
+           | |- _ /\ _ => split
+           | |- exists _, _ => eexists
+           | |- _ = _ => reflexivity
+           end. }
+  assert (F : Forall (fun e => e <> CounterModel.EvP) (map co_ev tr)).
+  { vm_compute. repeat constructor; discriminate. }
+  destruct (nth_error tr 7) as [o7|]; [|contradiction].
+  destruct (nth_error tr 10) as [o10|]; [|contradiction].
+  destruct (nth_error tr 11) as [o11|]; [|contradiction].
+  exists o7, o10, o11. do 3 (split; [reflexivity|]).
+  repeat (split; [apply H|]). exact F.
 Qed.
 
 (* ------------------------------------------------------------------ *)
@@ -179,8 +287,11 @@ Theorem C03_note_flag_orders :
          [2%nat; 3%nat].
 Proof. exact HbOnceProof.note_flag_orders. Qed.
 
-Print Assumptions C03_once_handoff. Print Assumptions C03_once_orders. Print Assumptions C03_once_handoff_example.
+Print Assumptions C03_once_handoff. Print Assumptions C03_once_fn_handoff. Print Assumptions C03_once_program_order.
+Print Assumptions C03_once_orders. Print Assumptions C03_once_handoff_example.
 Print Assumptions C03_counter_handoff. Print Assumptions C03_counter_handoff_any.
-Print Assumptions C03_counter_wake_handoff. Print Assumptions C03_counter_program_order.
+Print Assumptions C03_counter_wake_handoff. Print Assumptions C03_counter_sem_handoff.
+Print Assumptions C03_counter_program_order.
 Print Assumptions C03_counter_orders. Print Assumptions C03_sem_orders. Print Assumptions C03_counter_handoff_example.
+Print Assumptions C03_counter_wake_example.
 Print Assumptions C03_note_flag_orders.
